@@ -25,7 +25,7 @@ from .world import World, RES_VALUES, SORTS, cap
 
 
 def mc_threads(prog: Program, ports_cfg, stats, cycles: int = 1, n_out: int = 1, max_preempt: int = 2,
-               max_schedules: int = 6000, n_clients: int = 2, samples_out: Optional[List] = None, sample_every: int = 97) -> List[Finding]:
+               max_schedules: int = 6000, n_clients: int = 2, variant: int = 0, samples_out: Optional[List] = None, sample_every: int = 97) -> List[Finding]:
     info = prog.info
     model: fam.Model = info['model']
     mc = ports_cfg.multiclient
@@ -35,8 +35,10 @@ def mc_threads(prog: Program, ports_cfg, stats, cycles: int = 1, n_out: int = 1,
     itf = next(i for i in model.itfs if i.name == prt.itf)
     claim = next(e for e in itf.events if e.name == mc.claim_event_name)
     release = next(e for e in itf.events if e.name == mc.release_event_name)
-    works = [e for e in itf.events if e.direction == 'in' and e.name not in (claim.name, release.name)][:1]
-    outs = [e for e in itf.events if e.direction == 'out'][:1]
+    works = [e for e in itf.events if e.direction == 'in' and e.name not in (claim.name, release.name)]
+    outs = [e for e in itf.events if e.direction == 'out']
+    works = [works[variant % len(works)]] if works else []      # which other in-event / out-event is exercised
+    outs = [outs[variant % len(outs)]] if outs else []
     grant = RES_VALUES[mc.claim_granting_reply_value.items[-1]]
     refuse = (grant + 1) % 3
     clients = [f'c{i}' for i in range(n_clients)]
@@ -123,9 +125,18 @@ def mc_threads(prog: Program, ports_cfg, stats, cycles: int = 1, n_out: int = 1,
         m.events = events               # log-sink calls are recorded there by the machine
         sel: M.StructV = m.load(w.shell_field('m_pp' + cap(prt.name)))
         mw: M.StructV = m.load(sel.fields['m_clientSelect'])
-        m.watch = {id(mw.fields['m_protectee']): 'm_clientSelect (protected value)',
-                   id(sel.fields['m_clients']): 'm_clients',
-                   id(sel.fields['m_finalConstructed']): 'm_finalConstructed'}
+        # shared state = everything reachable from the selector object (its own fields, the wrapped values, the
+        # logger it shares with every call); mutexes are synchronisation objects, not data
+        m.watch = {}
+
+        def watch_all(sv: M.StructV, path: str, depth: int):
+            for fname, floc in sv.fields.items():
+                if not isinstance(floc, M.Loc) or isinstance(floc.v, M.MutexV):
+                    continue
+                m.watch.setdefault(id(floc), f'{path}{fname}')
+                if isinstance(floc.v, M.StructV) and depth < 4:
+                    watch_all(floc.v, f'{path}{fname}.', depth + 1)
+        watch_all(sel, '', 0)
         m.recording = True
         pump = w.dispatcher()
 
@@ -203,22 +214,31 @@ def mc_threads(prog: Program, ports_cfg, stats, cycles: int = 1, n_out: int = 1,
         except M.Deadlock as exc:
             add(Finding('C11', f'deadlock: {exc}', {'events': list(events), 'key': 'C11:deadlock'}))
             return None
+        except M.CppThrow as exc:
+            who = sched.current or '?'
+            add(Finding('C11', f'a C++ exception ({exc.type_name}) escapes on thread {who} '
+                               f'({"the dispatcher" if who == "env" else "a client"}): the process terminates, nobody '
+                               'receives out-events any more',
+                        {'events': list(events), 'key': f'C11:exception-escapes:{exc.type_name}',
+                         'exception': exc.type_name}))
+            return None
         finally:
             m.sched = None
             for f in local:
                 f.witness['schedule'] = [t for t, _e in sched.schedule]
-                f.witness['cycles'], f.witness['n_out'] = cycles, n_out
+                f.witness['cycles'], f.witness['n_out'], f.witness['variant'] = cycles, n_out, variant
         sched_names = [t for t, _e in sched.schedule]
         if outcome == 'deadlock':
             add(Finding('C11', 'deadlock: every remaining thread is blocked',
                         {'events': list(events), 'key': 'C11:deadlock', 'schedule': sched_names,
-                         'cycles': cycles, 'n_out': n_out}))
+                         'cycles': cycles, 'n_out': n_out, 'variant': variant}))
         counter['n'] += 1
         if samples_out is not None and outcome == 'ok' and counter['n'] % sample_every == 1 and len(samples_out) < 12:
-            samples_out.append({'schedule': sched_names, 'events': [list(e) for e in events]})
+            samples_out.append({'schedule': sched_names, 'events': [list(e) for e in events],
+                                'bad_delivery': any('delivered to' in f.what for f in local)})
         for race in sorted(set(m.hb_races)):
             add(Finding('C11', f'data race: {race}', {'events': list(events), 'schedule': sched_names,
-                                                     'cycles': cycles, 'n_out': n_out,
+                                                     'cycles': cycles, 'n_out': n_out, 'variant': variant,
                                                      'key': 'C11:race:' + race.split(':')[0]}))
         if not m.hb_races:
             for race in m.races():
@@ -227,7 +247,7 @@ def mc_threads(prog: Program, ports_cfg, stats, cycles: int = 1, n_out: int = 1,
                 discipline.add(race)
         if m.lock_then_block:
             add(Finding('C11', 'a thread waits for the dispatcher while holding the selector mutex',
-                        {'events': list(events), 'schedule': sched_names, 'cycles': cycles, 'n_out': n_out,
+                        {'events': list(events), 'schedule': sched_names, 'cycles': cycles, 'n_out': n_out, 'variant': variant,
                          'key': 'C11:lock-then-dispatcher'}))
         return None
 
@@ -300,14 +320,17 @@ def mutex_wrapped_protocol(prog: Program, ports_cfg, stats) -> List[Finding]:
             findings.append(Finding('C11', 'MutexWrapped::operator() does not hand out the protected value', {'mw': True}))
         if not mutex.locked:
             findings.append(Finding('C11', 'the mutex is not held while the pointer is alive', {'mw': True}))
-        # (2) exclusive: a second acquisition cannot proceed while the first pointer lives
+        # (2) exclusive: ANOTHER thread's acquisition cannot proceed while the first pointer lives
+        m._tid = 'other'
         try:
             q = acquire()
-            findings.append(Finding('C11', 'a second pointer to the protected value is handed out while the first '
+            findings.append(Finding('C11', 'a second thread is handed a pointer to the protected value while the first '
                                            'one is alive (no mutual exclusion)', {'mw': True}))
             m.new_local(q, 'second')
         except M.Deadlock:
             pass
+        finally:
+            m._tid = 'main'
         m.pop_frame()
         if mutex.locked:
             findings.append(Finding('C11', 'the lock is not released when the pointer goes out of scope', {'mw': True}))
